@@ -160,6 +160,23 @@ def run(ctx):
             dm = utils.det(Hm, 'Moore'); wm = float(math.prod(ev))
             if abs(complex(dm) - wm) > 1e-8 * max(1, abs(wm)): viol('C11:det:moore', 'Moore determinant is not the product of the eigenvalues', {'n': n, 'eigenvalues': [str(x) for x in ev]}, dm, wm)
             ctx.count(('det', n, rep), True)
+    # strongly graded but exactly invertible matrices (sigma_min / sigma_max far below eps): the determinant is the product of the singular values and
+    # is not zero -- numerical rank deficiency is not singularity; multiplicativity with factors that are harmless one by one
+    for e in (28, 40) if ctx.quick() else (14, 28, 40, 60):
+        big, small = Fraction(2) ** e, Fraction(1, 2 ** e)
+        mats = [('graded diagonal', [[Q(0, big, 0, 0), Q(), Q()], [Q(), Q(0, 0, 1, 0), Q()], [Q(), Q(), Q(0, 0, 0, small)]], Fraction(1)),
+                ('graded monomial', [[Q(), Q(big), Q(), Q()], [Q(), Q(), Q(0, 3, 0, 0), Q()], [Q(0, 0, 1, 0), Q(), Q(), Q()], [Q(), Q(), Q(), Q(0, 0, 0, small)]], Fraction(3))]
+        for nm, Aq, want in mats:
+            inp = {'class': nm, 'exponent': e, 'A': [[[str(c) for c in a.t()] for a in r] for r in Aq]}
+            try: d = float(utils.det(qx.to_np(Aq), 'Dieudonne'))
+            except Exception as ex: viol('C11:det:graded:raises', f'det raised {ex!r}', inp); continue
+            if not abs(d - float(want)) <= 1e-9 * float(want): viol('C11:det:graded', f'Dieudonne determinant of an invertible, strongly graded matrix is {d!r}, the product of its singular values is {float(want)!r}', inp, d, float(want))
+            ctx.count(('det-graded', nm, e), True)
+        h = e // 2
+        Fa = [[Q(Fraction(2) ** h), Q(), Q()], [Q(), Q(0, 1, 0, 0), Q()], [Q(), Q(), Q(Fraction(1, 2 ** h))]]
+        Fb = [[Q(0, 0, Fraction(2) ** h, 0), Q(), Q()], [Q(), Q(1), Q()], [Q(), Q(), Q(0, 0, 0, Fraction(1, 2 ** h))]]
+        da, db_, dab = (float(utils.det(qx.to_np(M), 'Dieudonne')) for M in (Fa, Fb, qx.mm(Fa, Fb)))
+        if not abs(dab - da * db_) <= 1e-9 * abs(da * db_) or not abs(da - 1.0) <= 1e-9: viol('C11:det:graded:multiplicative', f'det(AB) = {dab!r} but det(A) det(B) = {da * db_!r} for two graded diagonal factors', {'exponent': h}, dab, da * db_)
     from .c02 import rexp_ref
     def _herm_patterns(n):
         out = []
